@@ -1,5 +1,5 @@
 INIT ScInit
-NEXT Next
+NEXT BoundedNext
 CONSTANTS
   Methods <- MC_Methods
   Scaled <- MC_Scaled
